@@ -1,7 +1,7 @@
 """C15H - statement-level Coq model of gauss_jordan_elimination and hobby_interpolation (src/utils.cpp) tied bit for bit to the real
 functions; to be merged into C15 (also serves the `interpolation` construction calls of C07 / C08)."""
 CONFIG = {
-    "manifest": {'level_text': "Statement-level Gallina model (coq/Hobby.v) of gauss_jordan_elimination (partial pivoting on the largest absolute value of the column among the rows not yet used, first one on ties, strict > so that a NaN never replaces; the index vector is permuted, never the rows; a zero pivot is counted in the return value and the column SKIPPED, the loop goes on; row scaled by 1.0 / pivot from column i on, every other row reduced over ALL columns) and of hobby_interpolation (open solver with its ranges between constrained knots, first / last row = requested offset or curl equation, closed unconstrained solver, rotation of a constrained closed curve, control points from Hobby's velocity function), written ONCE over an abstract carrier and instantiated by a field (Qc) for the theorems, by Flocq binary64 for the tie and by 'rationals a double holds exactly' for the specification line. Theorems for ALL inputs (coq/HobbyProofs.v, HobbyProofs2.v, HobbyQc.v; Properties_C15H.v): over ANY carrier (binary64 with NaN and overflow included) the pivot vector is a permutation of 0..rows-1 after every step, hence every row / column index stays inside the rows x cols buffer when cols >= rows, and the return value is at most rows; over any field: gauss_jordan_solves (return value 0 => the vector read back through the pivots satisfies A x = b exactly; invariant: the row operations preserve the solution set of the homogeneous augmented system and the processed columns are unit vectors), gauss_jordan_unique, gauss_jordan_singular (return value <> 0 => A y = 0 for some y <> 0), gauss_jordan_result (return value 0 IFF exactly one solution); the same for the Qc instance. hobby: open_matrix_rows (every row of the matrix the open solver assembles for a range), open_system_spec (a vector solves the assembled system IFF theta_{k+1} + phi_k + psi_k = 0 and A theta_k + B theta_{k+1} + C phi_k + D phi_{k+1} = 0 at every interior knot, first row = requested offset or initial curl equation, last row likewise), mock_curvature_equation (the A B C D row IS continuity of Hobby's mock curvature when lengths and tensions are non-zero), curl_equation_first / _last (the free-end rows ARE 'mock curvature at the end = curl x mock curvature at the neighbour'), open_range_solved (a range eliminated without skipped column stores angles satisfying all of it; a constrained end gets exactly the requested offset), open_unconstrained (whole open curve without constraints).", 'level_note': "All theorems are closed under the global context except the binary64 permutation theorem (Flocq's definitions bring ClassicalDedekindReals.sig_forall_dec, sig_not_dec, FunctionalExtensionality.functional_extensionality_dep, Classical_Prop.classic). The theorems are about exact arithmetic; the binary64 instance is tied to the C++ bit for bit but no rounding-error bound is proved. libm atan2 / sin / cos are finite tables recorded from the library's own calls (the model looks its own arguments up: a different argument finds nothing and yields NaN); sqrt is Flocq's correctly rounded Bsqrt. Not proved: the composition of several constrained ranges inside the while loop, the closed solvers' systems (modelled and tied bit for bit only), anything about the control-point formula beyond the differential comparison.", 'technique': 'Coq proofs over an abstract field + the same Gallina function extracted with Flocq binary64 operations and compared bit for bit with the real code (libm calls hooked by macro around #include "utils.cpp") + exact-rational specification line + long-double oracles on the returned control points'},
+    "manifest": {'level_text': "Statement-level Gallina model (coq/Hobby.v) of gauss_jordan_elimination (partial pivoting on the largest absolute value of the column among the rows not yet used, first one on ties, strict > so that a NaN never replaces; the index vector is permuted, never the rows; a zero pivot is counted in the return value and the column SKIPPED, the loop goes on; row scaled by 1.0 / pivot from column i on, every other row reduced over ALL columns) and of hobby_interpolation (open solver with its ranges between constrained knots, first / last row = requested offset or curl equation, closed unconstrained solver, rotation of a constrained closed curve, control points from Hobby's velocity function), written ONCE over an abstract carrier and instantiated by a field (Qc) for the theorems, by Flocq binary64 for the tie and by 'rationals a double holds exactly' for the specification line. Theorems for ALL inputs (coq/HobbyProofs.v, HobbyProofs2.v, HobbyQc.v; Properties_C15H.v): over ANY carrier (binary64 with NaN and overflow included) the pivot vector is a permutation of 0..rows-1 after every step, hence every row / column index stays inside the rows x cols buffer when cols >= rows, and the return value is at most rows; over any field: gauss_jordan_solves (return value 0 => the vector read back through the pivots satisfies A x = b exactly; invariant: the row operations preserve the solution set of the homogeneous augmented system and the processed columns are unit vectors), gauss_jordan_unique, gauss_jordan_singular (return value <> 0 => A y = 0 for some y <> 0), gauss_jordan_result (return value 0 IFF exactly one solution); the same for the Qc instance. hobby, over ANY field and for ARBITRARY functions in place of sqrt / atan2 / sin / cos: open_matrix_rows (every row of the matrix the open solver assembles for a range), open_system_spec (a vector solves the assembled system IFF theta_{k+1} + phi_k + psi_k = 0 and A theta_k + B theta_{k+1} + C phi_k + D phi_{k+1} = 0 at every interior knot, first row = requested offset or initial curl equation, last row likewise), mock_curvature_equation (the A B C D row IS continuity of Hobby's mock curvature when lengths and tensions are non-zero), curl_equation_first / _last (the free-end rows ARE 'mock curvature at the end = curl x mock curvature at the neighbour'), open_range_solved, open_round_post (what one round of the while loop establishes, solved or not), open_constrained / hobby_open (WHOLE open curve with any set of angle constraints: when no elimination skipped a column every constrained knot is reached and left in exactly the requested direction - chord_k + theta_k = ang_k = chord_{k-1} - phi_{k-1} -, every unconstrained interior knot satisfies the turning and the mock-curvature equation, free ends the curl equation), hobby_closed_constrained (the same for the rotated arrays of a closed curve with a constrained knot), closed_system_spec / closed_unconstrained / hobby_closed_unconstrained (closed curve without constraints: turning and mock-curvature equation at EVERY knot, cyclic indices), and two refutation witnesses replayed on the real code: hobby_finite_refuted (theta = phi = -pi: infinite control points) and hobby_ignored_singular_refuted (a triple point makes gauss_jordan_elimination skip a column; the return value is ignored).", 'level_note': "All theorems are closed under the global context except the binary64 permutation theorem and the two refutation witnesses (Flocq's definitions bring ClassicalDedekindReals.sig_forall_dec, sig_not_dec, FunctionalExtensionality.functional_extensionality_dep, Classical_Prop.classic). The theorems are about exact arithmetic; the binary64 instance is tied to the C++ bit for bit but no rounding-error bound is proved. libm atan2 / sin / cos are finite tables recorded from the library's own calls (the model looks its own arguments up: a different argument finds nothing and yields NaN); sqrt is Flocq's correctly rounded Bsqrt. Every hobby theorem is conditional on 'no elimination skipped a column' (hr_skipped = 0, a quantity of the model: the C++ discards the return value) and is about the angle vectors theta / phi; the control-point formula (Hobby's velocity function) is modelled and tied bit for bit but nothing is proved about it, and no rounding-error bound relates the binary64 instance to the exact one.", 'technique': 'Coq proofs over an abstract field + the same Gallina function extracted with Flocq binary64 operations and compared bit for bit with the real code (libm calls hooked by macro around #include "utils.cpp") + exact-rational specification line + long-double oracles on the returned control points'},
     "prop_file": "Properties_C15H",
     "extract_file": "Extract_C15H",
     "extracted": ["c15_hobby"],
